@@ -4,6 +4,18 @@ import json, os
 PROPS = [json.loads(l)['id'] for l in open('/verif/properties.jsonl')]
 
 CLAIMED = {
+ 'C17': dict(
+   category='proof',
+   text=('PARTIAL proof + exact round-trip correspondence. Proved in Coq: combine_data_and_meta inverts split_data_and_meta on EVERY dictionary tree (any nesting, '
+         'any number of data arrays, with the invariants that the data tuple only grows and positions stay in range); the tuple/list conversion applied by '
+         'from_dict inverts what transport does to the tuple-only structures to_dict emits (and leaves untransported ones alone), always yielding hashable tuples. '
+         'The model is run on the dictionary trees of real tensors/MPS/PEPS. NOT proved: the field content of to_dict/from_dict, the zero-block fill-in against a '
+         'meta, HDF5: checked by exact round trips of generated objects (all tensor kinds, levels 0-2, legacy format, numpy pickle, HDF5, split/combine, meta-linear '
+         'map incl. lazily transposed tensor/meta, MPS with/without central block and factor, Peps on every lattice type) incl. a follow-up contraction, and '
+         'rejection of incompatible config/meta.'),
+   design_ref='DESIGN.md section 6 C17',
+   note=('Trusted: Coq kernel, no axioms; transports (numpy pickle, h5py) modelled by listify; hand-written model tied by correspondence on tree structure only.'),
+   technique='Coq proof (split/combine inverse by mutual induction, tuple conversion) + exact round-trip correspondence over all routes'),
  'C03': dict(
    category='proof',
    text=('PARTIAL proof + exact correspondence. Proved in Coq: the index maps fusion is made of are bijections (segment layout: (segment, offset) <-> flat '
